@@ -133,9 +133,14 @@ namespace sim
 		const int packet_size = int(p.buffer.size() + p.overhead);
 		m_queue_size -= packet_size;
 
+		// forwarding the packet may re-enter incoming_packet() (a socket at the
+		// end of the route answering over this same queue). If the queue is empty
+		// at this point, that call starts the sender itself
+		bool const more = !m_queue.empty();
+
 		forward_packet(std::move(p));
 
-		if (m_queue.size())
+		if (more)
 			begin_send_next_packet();
 	}
 }
